@@ -217,6 +217,37 @@ Project(dist, vs) ==
     IN  TrieItems(t, 1, Len(vs), <<>>)
 
 ----------------------------------------------------------------------------
+(* moment-only continuous draws.  A continuous value cannot sit in a store; *)
+(* what the analysis needs of a draw  z = Family(params(store))  that is    *)
+(* not read afterwards is E[z^k | store], a polynomial in the parameters    *)
+(* (same recurrences as spec/Dists.tla, here over the exact scalars):       *)
+(*   normal(mu, s2), laplace(mu, b), uniform(a, b), exponential given by    *)
+(*   its mean theta = 1/lambda, gamma(shape, scale)                         *)
+RECURSIVE FactN(_)
+FactN(i) == IF i <= 1 THEN 1 ELSE i * FactN(i - 1)
+RECURSIVE BinomN(_, _)
+BinomN(nn, k) == IF k = 0 \/ k = nn THEN 1 ELSE BinomN(nn - 1, k - 1) + BinomN(nn - 1, k)
+RECURSIVE CMoment(_, _, _)
+CMoment(fam, ps, k) ==
+    IF k = 0 THEN SOne
+    ELSE CASE fam = "normal" ->
+                SAdd(SMul(ps[1], CMoment(fam, ps, k - 1)),
+                     IF k >= 2 THEN SMul(SMul(SFromInt(k - 1), ps[2]), CMoment(fam, ps, k - 2)) ELSE SZero)
+           [] fam = "exponential" -> SMul(SMul(SFromInt(k), ps[1]), CMoment(fam, ps, k - 1))
+           [] fam = "gamma" -> SMul(SMul(ps[2], SAdd(ps[1], SFromInt(k - 1))), CMoment(fam, ps, k - 1))
+           [] fam = "uniform" ->
+                SDivSmall(FoldSet(LAMBDA i, acc : SAdd(acc, SMul(SPow(ps[1], i), SPow(ps[2], k - i))), SZero, 0..k), k + 1)
+           [] fam = "laplace" ->
+                FoldSet(LAMBDA j, acc : IF j % 2 = 1 THEN acc
+                                        ELSE SAdd(acc, SMul(SMul(SFromInt(BinomN(k, j) * FactN(j)), SPow(ps[1], k - j)),
+                                                            SPow(ps[2], j))), SZero, 0..k)
+\* E[ m(store) * z^k ]  for z drawn from fam with parameters given by polynomials in the store
+DrawMoment(fam, params, k, m, dist) ==
+    FoldSet(LAMBDA r, acc :
+               SAdd(acc, SMul(r.w, SMul(Eval(m, r.s), CMoment(fam, [j \in 1..Len(params) |-> Eval(params[j], r.s)], k)))),
+            SZero, dist)
+
+----------------------------------------------------------------------------
 (* cumulants by the set-partition formula                                  *)
 (*   kappa_k = sum over partitions pi of {1..k} of                         *)
 (*             (-1)^(|pi|-1) (|pi|-1)!  prod_{B in pi} m_|B|               *)
